@@ -22,7 +22,10 @@ VARIABLES s, n
 evars == <<s, n>>
 \* Mode "name": names that START like a predefined one (&lt &gt &amp &apos &quot, and shorter / other beginnings) continued
 \* by a few more symbols: only the five exact names are entities
-NamePrefixes == { <<38>>, <<38,108>>, <<38,108,116>>, <<38,103,116>>, <<38,97,109>>, <<38,97,109,112>>, <<38,97,112,111,115>>, <<38,113,117,111,116>>, <<38,113,117,111>> }
+\* (and names longer than 32 bytes whose 33rd byte lies inside a two-byte character - or just behind one)
+LongName1 == <<38>> \o [i \in 1..31 |-> 108] \o <<195, 169>>
+LongName2 == <<38>> \o [i \in 1..30 |-> 108] \o <<195, 169>> \o <<108, 108>>
+NamePrefixes == { LongName1, LongName2, <<38>>, <<38,108>>, <<38,108,116>>, <<38,103,116>>, <<38,97,109>>, <<38,97,109,112>>, <<38,97,112,111,115>>, <<38,113,117,111,116>>, <<38,113,117,111>> }
 NameSymbols == { <<108>>, <<116>>, <<97>>, <<101>>, <<59>>, <<35>>, <<112>>, <<38>> }      \* l t a e ; # p &
 Init == s \in (IF Mode = "ref" THEN {<<38, 35>>} ELSE IF Mode = "name" THEN NamePrefixes ELSE {<<>>}) /\ n = 0
 Next == n < N /\ \E y \in (IF Mode = "ref" THEN RefSymbols ELSE IF Mode = "name" THEN NameSymbols ELSE Symbols) : s' = s \o y /\ n' = n + 1
